@@ -38,11 +38,11 @@ Section WithCpf.
 
   (* ---- the node invariant ------------------------------------------------------ *)
   Definition ninv (nd : node) : Prop :=
-    same_shape (n_store nd) (n_shadow nd) /\ vinv (n_v nd) (n_shadow nd).
+    aligned (n_store nd) (n_shadow nd) /\ vinv (n_v nd) (n_shadow nd).
 
   Lemma ninv_init : ninv node_init.
   Proof.
-    split; [apply same_shape_refl|]. apply vinv_init. intros C. contradiction C. reflexivity.
+    split; [apply aligned_refl|]. apply vinv_init. intros C. contradiction C. reflexivity.
   Qed.
 
   (* what a successful StoreLogs guarantees about the node and its reports *)
@@ -95,8 +95,13 @@ Section WithCpf.
   Proof.
     intros [Hs Hv]. unfold node_delete, vdelete_range.
     destruct (delete_range (n_store nd) mn mx) as [s'|] eqn:E; cbn [snd n_store n_shadow n_v].
-    - destruct (delete_range_shape _ _ _ _ _ Hs E) as (sh' & Esh & Hs'). rewrite Esh.
-      split; [exact Hs'|]. apply vinv_init. eapply delete_range_wf; [exact Esh|apply Hv].
+    - destruct (delete_aligned _ _ _ _ _ Hs (proj2 Hv) E) as [Ha Hw].
+      split; [exact Ha|].
+      destruct (last_index (n_store nd) <=? mx) eqn:El; [apply vinv_init; exact Hw|].
+      (* a pure head truncation: the written log and the running sum are untouched *)
+      replace (shadow_delete (n_store nd) (n_shadow nd) mn mx) with (n_shadow nd); [exact Hv|].
+      unfold shadow_delete. destruct (mx <? mn); [reflexivity|].
+      destruct (s_logs (n_store nd)); [reflexivity|]. cbv zeta. rewrite El. reflexivity.
     - split; assumption.
   Qed.
 
@@ -108,7 +113,7 @@ Section WithCpf.
     - unfold node_restart. destruct (ch_quiescent (n_c nd)); [|exact H].
       destruct H as [Hs [_ Hw]]. split; [exact Hs|]. apply vinv_init. exact Hw.
     - destruct H as [Hs Hv]. split; [|exact Hv]. cbn [node_tamper n_store n_shadow].
-      eapply same_shape_trans; [apply tamper_shape|exact Hs].
+      apply tamper_aligned. exact Hs.
     - exact H.
     - exact H.
     - exact H.
@@ -120,38 +125,43 @@ Section WithCpf.
     apply (run_invariant ninv ninv_step). intros m. rewrite node_at_init. apply ninv_init.
   Qed.
 
-  (* without at-rest corruption the store holds exactly what the node wrote *)
-  Lemma shadow_is_store_step nd ev :
-    is_tamper ev = false -> n_shadow nd = n_store nd ->
-    n_shadow (node_step cpf nd ev) = n_store (node_step cpf nd ev).
+  (* without at-rest corruption the store is exactly the part of the written log
+     that compaction has left (and all of it when nothing was compacted) *)
+  Lemma suffix_step nd ev :
+    is_tamper ev = false -> ninv nd -> suffix_of (n_store nd) (n_shadow nd) ->
+    suffix_of (n_store (node_step cpf nd ev)) (n_shadow (node_step cpf nd ev)).
   Proof.
-    intros Ht E. destruct ev; cbn [node_step is_tamper] in *; try discriminate; try exact E.
+    intros Ht [Ha [_ Hw]] E. destruct ev; cbn [node_step is_tamper] in *; try discriminate; try exact E.
     - destruct (c_pending (n_c nd)); [|exact E]. unfold node_store. cbn [fst snd n_shadow n_store].
-      rewrite E. unfold vstore_logs. destruct b as [|e0 r]; [reflexivity|].
+      unfold vstore_logs. destruct b as [|e0 r]; [exact E|].
       destruct (uvs_loop cpf (e0 :: r) (v_sum (n_v nd)) (v_start (n_v nd))) as [[[[cs st] rs] b']|];
-        [|reflexivity].
-      destruct (n_fail nd); [reflexivity|]. cbn.
-      destruct (store_logs (n_store nd) b') eqn:Es; cbn; [rewrite Es|]; reflexivity.
-    - unfold node_delete, vdelete_range. rewrite E.
-      destruct (delete_range (n_store nd) mn mx) eqn:Ed; cbn; reflexivity.
+        [|exact E].
+      destruct (n_fail nd); [exact E|]. cbn.
+      destruct (store_logs (n_store nd) b') as [s'|] eqn:Es; cbn; [|exact E].
+      destruct (store_logs_aligned _ _ _ _ Ha Es) as (sh' & Esh & _). rewrite Esh.
+      eapply suffix_of_store; eauto.
+    - unfold node_delete, vdelete_range.
+      destruct (delete_range (n_store nd) mn mx) as [s'|] eqn:Ed; cbn [snd n_store n_shadow]; [|exact E].
+      eapply suffix_of_delete; eauto.
     - unfold node_restart. destruct (ch_quiescent (n_c nd)); exact E.
   Qed.
 
-  Lemma no_tamper_shadow h k n :
+  Lemma no_tamper_suffix h k n :
     forallb (fun ev => negb (is_tamper ev)) h = true ->
-    n_shadow (node_at (run cpf (sys_init k) h) n) = n_store (node_at (run cpf (sys_init k) h) n).
+    suffix_of (n_store (node_at (run cpf (sys_init k) h) n)) (n_shadow (node_at (run cpf (sys_init k) h) n)).
   Proof.
     intros Hh.
     assert (G : forall h st, forallb (fun ev => negb (is_tamper ev)) h = true ->
-                (forall m, n_shadow (node_at st m) = n_store (node_at st m)) ->
-                forall m, n_shadow (node_at (run cpf st h) m) = n_store (node_at (run cpf st h) m)).
+                (forall m, ninv (node_at st m) /\ suffix_of (n_store (node_at st m)) (n_shadow (node_at st m))) ->
+                forall m, suffix_of (n_store (node_at (run cpf st h) m)) (n_shadow (node_at (run cpf st h) m))).
     { clear. induction h as [|ev h IH]; intros st Hh H m; [apply H|].
       cbn [forallb] in Hh. apply andb_true_iff in Hh as [H1 H2].
       unfold run in *. cbn [fold_left]. apply IH; [exact H2|]. intros j. unfold step.
       destruct (node_at_upd st (ev_node ev) (fun nd => node_step cpf nd ev) j) as [E|[_ E]]; rewrite E.
       - apply H.
-      - apply shadow_is_store_step; [destruct (is_tamper ev); [discriminate|reflexivity]|apply H]. }
-    apply G; [exact Hh|]. intros m. rewrite node_at_init. reflexivity.
+      - split; [apply ninv_step; apply H|].
+        apply suffix_step; [destruct (is_tamper ev); [discriminate|reflexivity]|apply H|apply H]. }
+    apply G; [exact Hh|]. intros m. rewrite node_at_init. split; [apply ninv_init|apply suffix_of_refl].
   Qed.
 
   (* ---- what a triggered report claims -------------------------------------------- *)
@@ -407,10 +417,16 @@ Section WithCpf.
     rewrite (uvs_loop_refuses (e0 :: r) _ _ e Hin Hbad). split; reflexivity.
   Qed.
 
+  (* DeleteRange: same result and same effect on the store as the underlying
+     call (preceded by one LastIndex read, which has no effect); the running sum
+     restarts exactly when the deleted range reached that last index, and is
+     left alone by head truncations *)
   Theorem passthrough_delete nd mn mx :
     match delete_range (n_store nd) mn mx with
     | Some s' => node_delete nd mn mx = (true, snd (node_delete nd mn mx)) /\
-                 n_store (snd (node_delete nd mn mx)) = s'
+                 n_store (snd (node_delete nd mn mx)) = s' /\
+                 n_v (snd (node_delete nd mn mx)) =
+                   (if last_index (n_store nd) <=? mx then v_init else n_v nd)
     | None => fst (node_delete nd mn mx) = false /\
               n_store (snd (node_delete nd mn mx)) = n_store nd /\
               n_v (snd (node_delete nd mn mx)) = n_v nd
